@@ -136,6 +136,45 @@ fn check(s: &Soup, run: &mut Run) -> Result<(), String> {
     judge(&src, s.must_reject, !s.malformed, &d)
 }
 
+/// Derive `src` in a child process (this binary in `--derive-one` mode). Err = the C19 verdict of the child, or the way
+/// the child died.
+fn derive_isolated(src: &str) -> Result<(), String> {
+    let dir = model::run::root().join("work/c19-isolated");
+    std::fs::create_dir_all(&dir).map_err(|e| e.to_string())?;
+    let file = dir.join(format!("{:016x}.rs", model::fnv(src.as_bytes())));
+    std::fs::write(&file, src).map_err(|e| e.to_string())?;
+    let exe = std::env::current_exe().map_err(|e| e.to_string())?;
+    let out = std::process::Command::new(exe).args(["C19", "--derive-one", file.to_str().unwrap()]).output().map_err(|e| format!("harness: cannot spawn the child: {e}"))?;
+    let _ = std::fs::remove_file(&file);
+    let text = String::from_utf8_lossy(&out.stdout);
+    if text.lines().any(|l| l == "DERIVE-ONE OK") {
+        return Ok(());
+    }
+    if let Some(m) = text.lines().find_map(|l| l.strip_prefix("DERIVE-ONE BAD ")) {
+        return Err(m.to_string());
+    }
+    let err = String::from_utf8_lossy(&out.stderr);
+    Err(format!("the derive brought the process down ({}): {}", out.status, err.lines().filter(|l| !l.trim().is_empty()).take(3).collect::<Vec<_>>().join(" / ")))
+}
+
+/// Enums with type parameters and `#[logos(type X = ..)]` items: plain, nested through another parameter, in both item
+/// orders, naming themselves, naming each other, in references / tuples / arrays / fn pointers / trait objects.
+fn type_item_sources() -> Vec<String> {
+    let mut out = Vec::new();
+    let one = ["u8", "&'s str", "Vec<u8>", "Vec<T>", "Option<Box<T>>", "(T, u8)", "[T; 2]", "&'s T", "fn(T) -> T", "Box<dyn Iterator<Item = T>>", "T", "std::collections::HashMap<T, T>"];
+    for ty in one {
+        out.push(format!("#[derive(Logos)]\n#[logos(type T = {ty})]\nenum Tok<T> {{\n    #[token(\"x\", |_| todo!())]\n    X(T),\n    #[token(\"y\")]\n    Y,\n}}\n"));
+    }
+    let two = [("Vec<U>", "u8"), ("u8", "Vec<T>"), ("Vec<U>", "Vec<T>"), ("U", "T"), ("(U, U)", "Option<T>"), ("&'s U", "&'s str"), ("Box<U>", "Box<U>")];
+    for (t, u) in two {
+        for swap in [false, true] {
+            let items = if swap { format!("#[logos(type U = {u})]\n#[logos(type T = {t})]") } else { format!("#[logos(type T = {t}, type U = {u})]") };
+            out.push(format!("#[derive(Logos)]\n{items}\nenum Tok<T, U> {{\n    #[token(\"x\", |_| todo!())]\n    X(T),\n    #[token(\"y\", |_| todo!())]\n    Y(U),\n}}\n"));
+        }
+    }
+    out
+}
+
 pub fn main(args: &Args) -> i32 {
     let mut run = Run::new(
         "C19",
@@ -144,10 +183,34 @@ pub fn main(args: &Args) -> i32 {
         "proptest attribute soup: enum with 0-4 enum-level attributes and 1-4 variants (unit, one-field, empty-tuple, multi-field, named) carrying 0-3 attributes drawn from pools of well-formed and malformed/duplicated #[logos]/#[token]/#[regex]/#[error] forms, generics incl. const; 35% carry a constructively generated must-reject item (empty match, start look-behind, Unicode \\b, greedy dot without allow_greedy, undefined subpattern, named/empty/multi-field variant, const generic); oracle: no panic (catch_unwind), output parses as Rust, must-reject => compile_error present, accepted => graph error-free with a root that records nothing; non-trivial = distinct inputs with a malformed/duplicated attribute or a must-reject item; second generator: the definition families of the other checks (core, subpattern incl. planted bad references, literal, conflict) judged for panic-freedom and soundness of accepted definitions (non-trivial there = definitions with subpatterns or non-ASCII text); before the soup every must-reject class is derived once on its own in an otherwise acceptable definition; third generator: a few patterns with nested counted repetitions whose counts multiply beyond usize (no panic)",
     );
     run.assumptions = vec!["library entry point (proc_macro2 fallback spans); the real proc-macro on stable is exercised by tier P".into()];
+    // child mode (crash isolation): derive the source in this process, print the verdict, exit
+    if let Some(path) = args.extra.get("derive-one") {
+        std::panic::set_hook(Box::new(|_| {}));
+        let src = std::fs::read_to_string(path).unwrap_or_default();
+        let d = derive_rust(src.clone());
+        match judge(&src, None, true, &d) {
+            Ok(()) => println!("DERIVE-ONE OK"),
+            Err(m) => println!("DERIVE-ONE BAD {}", m.replace('\n', " ")),
+        }
+        return 0;
+    }
     if let Some(path) = &args.replay {
         let v: serde_json::Value = serde_json::from_str(&std::fs::read_to_string(path).unwrap()).unwrap();
         let src = v["source"].as_str().unwrap().to_string();
         let must = v["must_reject"].as_str();
+        if v["isolated"].as_bool().unwrap_or(false) {
+            return match derive_isolated(&src) {
+                Ok(()) => {
+                    println!("replay: no violation of C19");
+                    0
+                }
+                Err(m) => {
+                    println!("replay: {m}");
+                    println!("VIOLATION property=C19 replay={}", path.display());
+                    1
+                }
+            };
+        }
         let d = derive_rust(src.clone());
         return match judge(&src, must, v["fragments_ok"].as_bool().unwrap_or(false), &d) {
             Ok(()) => {
@@ -232,6 +295,18 @@ pub fn main(args: &Args) -> i32 {
                 run.write_evidence(&args.evidence);
                 return 1;
             }
+        }
+    }
+    // type-parameter items (concrete types in terms of other parameters, of themselves, of each other), each derived in a
+    // child process: a crash of the process (stack overflow, abort) is not catchable in-process
+    for src in type_item_sources() {
+        run.eval(1);
+        run.count("type_item_sources_derived_in_a_child_process", 1);
+        if let Err(msg) = derive_isolated(&src) {
+            run.violations = 1;
+            report_violation("C19", &args.replay_dir, &json!({"property": "C19", "tier": "G", "source": src, "must_reject": null, "fragments_ok": true, "isolated": true, "findings": [{"property": "C19", "what": msg}]}));
+            run.write_evidence(&args.evidence);
+            return 1;
         }
     }
     // the enums that ship with the repository, as written (incl. the suite's must-fail data): no panic, and what is
